@@ -9,8 +9,10 @@ import NmVerif.Containers.SmallVector
 import NmVerif.Containers.SmallVectorProofs
 import NmVerif.Containers.Either
 import NmVerif.Containers.EitherProofs
+import NmVerif.Containers.EitherLifetime
 import NmVerif.Containers.LedgerSim
 import NmVerif.Containers.SmallVectorLedger
+import NmVerif.Containers.SmallVectorFree
 /-
   C19 — The STL-free containers behave like their standard counterparts over any history.
   Property statements only (+ non-vacuity examples, counterexample theorems for the defects of the unchanged tree).
@@ -204,26 +206,12 @@ example :
 /-! ### nmtools::small_vector over utl::either<utl::static_vector, utl::vector> -/
 
 /-- `small_vector<T,c>` holds exactly what `std::vector` holds — in static mode, in heap mode and across the switch at
-    `c` — after every history over the whole alphabet {ctor, ctorN, ctorV, copy, assign, push, pushAt, resize, write,
-    read, destroy} in which `x.push_back(x[i])` is never applied to an object holding exactly `c` elements
-    (`smallOk`, decided on the reference run; see `smallVector_alias_push_counterexample`) -/
-theorem smallVector_refines_alias (c : Nat) (zero : α) (h : List (Op α))
-    (hok : AllOk (stdSpec zero) (smallOk c) World.empty h) :
+    `c` — after EVERY history over the whole alphabet {ctor, ctorN, ctorV, copy, assign, push, pushAt = push_back(x[i]),
+    resize, write, read, destroy} (after the `fix:` commits C19-either-maybe-lifetime and C19-small-vector-alias-push
+    no operation is excluded) -/
+theorem smallVector_refines (c : Nat) (zero : α) (h : List (Op α)) :
     WRel (RSmall c) (run (smallImpl c zero) World.empty h) (run (stdSpec zero) World.empty h) :=
-  run_sim (small_sim c zero) h (wrel_empty _) hok
-
-example : AllOk (stdSpec (0 : Int)) (smallOk 4) World.empty
-    [.ctorV 0 [1, 2, 3], .pushAt 0 1, .push 0 5, .pushAt 0 4, .pushAt 0 0, .copy 1 0, .resize 1 2, .pushAt 1 0] := by
-  decide
-
-/-- the same without any `push_back(x[i])` (the statement of the previous rounds) -/
-theorem smallVector_refines (c : Nat) (zero : α) (h : List (Op α))
-    (hok : ∀ op ∈ h, ∀ s i, op ≠ .pushAt s i) :
-    WRel (RSmall c) (run (smallImpl c zero) World.empty h) (run (stdSpec zero) World.empty h) :=
-  smallVector_refines_alias c zero h (allOk_of_forall _ _ h (by
-    intro op hop st
-    cases op <;> cases st <;> simp only [smallOk]
-    exact absurd rfl (hok _ hop _ _)) _)
+  run_sim (small_sim c zero) h (wrel_empty _) (allOk_of_forall _ _ h (fun _ _ _ => trivial) _)
 
 def smviewOf (w : World (Small Int)) (k : Nat) : Option (List (Cell Int)) := (w.objs k).map Small.view
 
@@ -258,33 +246,34 @@ example : AllOk (stdSpec (0 : Int)) (smallStaticOk 4) World.empty
      .write 2 3 5, .destroy 0] := by decide
 
 /-- the domain is sharp: `small_vector(DIM)` already takes the heap branch (`N < DIM`, small_vector.hpp:41) -/
-example : (run (smallImpl 4 (0 : Int)) World.empty [.ctorN 0 4]).led.allocs = 3 ∧
+example : (run (smallImpl 4 (0 : Int)) World.empty [.ctorN 0 4]).led.allocs = 2 ∧
     ¬ AllOk (stdSpec (0 : Int)) (smallStaticOk 4) World.empty [.ctorN 0 4] := by decide
 
-/-- conservation of blocks, EVERY history over the whole alphabet (`push_back(x[i])` at size DIM included): the blocks
-    handed out are exactly those freed, those dropped without a free (`lost`) and one per live object in heap mode
-    (`N` bounds the slots the history addresses) — nothing is freed that was not allocated and no object owns more
-    than one block -/
+/-- conservation of blocks, EVERY history over the whole alphabet: the blocks handed out are exactly those freed plus
+    one per live object in heap mode (`N` bounds the slots the history addresses); no block is ever dropped and no
+    out-of-bounds access, read of freed memory or lifetime error is ever recorded -/
 theorem smallVector_ledger_account (c : Nat) (zero : α) (h : List (Op α)) (N : Nat) (hN : ∀ op ∈ h, op.target < N) :
-    ((run (smallImpl c zero) World.empty h).led.allocs : Int)
-      = (run (smallImpl c zero) World.empty h).led.freed.length + (run (smallImpl c zero) World.empty h).led.lost.length
-        + ownSum Small.own (run (smallImpl c zero) World.empty h) N := by
+    (run (smallImpl c zero) World.empty h).led.allocs
+      = (run (smallImpl c zero) World.empty h).led.freed.length + ownSum Small.own (run (smallImpl c zero) World.empty h) N ∧
+    (run (smallImpl c zero) World.empty h).led.lost = [] ∧ (run (smallImpl c zero) World.empty h).led.events = [] := by
   have hw : WBal (Small.Inv c) Small.own N 0 (World.empty : World (Small α)) :=
     ⟨fun k x hx => by simp [World.empty] at hx, by rw [ownSum_empty]; rfl⟩
-  have := (run_bal (small_bal c zero) h hw hN).2
-  simp only [Ledger.bal] at this
+  have hb := (run_bal (small_bal c zero) h hw hN).2
+  have hq := (run_pres (small_quiet c zero) h (w := World.empty)
+    ⟨fun k x hx => by simp [World.empty] at hx, rfl, rfl⟩ (fun _ _ => trivial)).2
+  refine ⟨?_, hq.2, hq.1⟩
+  simp only [Ledger.bal, hq.2, List.length_nil] at hb
   omega
 
 example : ownSum Small.own (run (smallImpl 4 (0 : Int)) World.empty [.ctorN 0 5, .ctor 1, .copy 2 0, .push 1 3]) 3 = 2 := by
   decide
 
-/-- after destroying all objects: every block handed out was either freed or dropped — `allocs = frees` holds
-    exactly when no block was dropped (`lost = []`; by `smallVector_static_no_heap` on every history that stays static,
-    by `smallVector_leak_counterexample` / `smallVector_switch_cost` not once an object has been in heap mode) -/
-theorem smallVector_final_balance (c : Nat) (zero : α) (h : List (Op α))
+/-- no leak: after destroying all objects every block handed out has been freed (`allocs = frees`), whatever the
+    history — growth across DIM, copies and assignments between static and heap mode, `push_back(x[i])` included -/
+theorem smallVector_no_leak (c : Nat) (zero : α) (h : List (Op α))
     (hdead : ∀ k, (run (smallImpl c zero) World.empty h).objs k = none) :
-    (run (smallImpl c zero) World.empty h).led.allocs
-      = (run (smallImpl c zero) World.empty h).led.freed.length + (run (smallImpl c zero) World.empty h).led.lost.length := by
+    (run (smallImpl c zero) World.empty h).led.allocs = (run (smallImpl c zero) World.empty h).led.freed.length ∧
+    (run (smallImpl c zero) World.empty h).led.lost = [] ∧ (run (smallImpl c zero) World.empty h).led.events = [] := by
   have hN : ∀ op ∈ h, op.target < (h.map Op.target).foldr max 0 + 1 := by
     intro op hop
     have : ∀ (l : List Nat) (a : Nat), a ∈ l → a ≤ l.foldr max 0 := by
@@ -300,49 +289,64 @@ theorem smallVector_final_balance (c : Nat) (zero : α) (h : List (Op α))
     omega
   have := smallVector_ledger_account c zero h _ hN
   rw [ownSum_dead _ _ _ hdead] at this
-  omega
+  exact ⟨by omega, this.2⟩
 
 example : ∀ k, (run (smallImpl 4 (0 : Int)) World.empty [.ctorN 0 5, .copy 1 0, .destroy 0, .destroy 1]).objs k = none := by
   intro k
   by_cases h0 : k = 0 <;> by_cases h1 : k = 1 <;> simp [run, step, World.put, World.empty, h0, h1]
 
+/-- nothing is freed twice and only blocks that were handed out are freed; a live object never holds a freed block (no
+    dangling heap part) and two live objects never share a block — EVERY history over the whole alphabet -/
+theorem smallVector_no_double_free (c : Nat) (zero : α) (h : List (Op α)) :
+    (run (smallImpl c zero) World.empty h).led.freed.Nodup ∧
+    (∀ b ∈ (run (smallImpl c zero) World.empty h).led.freed, b < (run (smallImpl c zero) World.empty h).led.allocs) ∧
+    (∀ k x p, (run (smallImpl c zero) World.empty h).objs k = some x → Small.blk x = some p →
+      p < (run (smallImpl c zero) World.empty h).led.allocs ∧ p ∉ (run (smallImpl c zero) World.empty h).led.freed) ∧
+    (∀ k1 k2 x1 x2 p, k1 ≠ k2 → (run (smallImpl c zero) World.empty h).objs k1 = some x1 →
+      (run (smallImpl c zero) World.empty h).objs k2 = some x2 → Small.blk x1 = some p → Small.blk x2 ≠ some p) :=
+  let hw := small_run_linvg c zero h (LInvG.empty Small.blk (Small.Inv c))
+  ⟨hw.freedNodup, hw.freedLt, hw.owned, hw.distinct⟩
+
+/-- … and once all objects are destroyed the freed blocks are exactly the blocks handed out, each freed once -/
+theorem smallVector_no_leak_blocks (c : Nat) (zero : α) (h : List (Op α))
+    (hdead : ∀ k, (run (smallImpl c zero) World.empty h).objs k = none) :
+    (∀ b, b < (run (smallImpl c zero) World.empty h).led.allocs ↔ b ∈ (run (smallImpl c zero) World.empty h).led.freed) ∧
+    (run (smallImpl c zero) World.empty h).led.freed.Nodup := by
+  have hw := small_run_linvg c zero h (LInvG.empty Small.blk (Small.Inv c))
+  refine ⟨fun b => ⟨fun hb => ?_, hw.freedLt b⟩, hw.freedNodup⟩
+  rcases hw.accounted b hb with h' | ⟨k, x, hx, _⟩
+  · exact h'
+  · rw [hdead k] at hx; cases hx
+
+example : (run (smallImpl 4 (0 : Int)) World.empty
+    [.ctorN 0 6, .copy 1 0, .ctor 2, .assign 0 2, .push 2 1, .assign 2 1, .destroy 0, .destroy 1, .destroy 2]).led.freed
+    = [6, 4, 5, 2, 3, 1, 0] := by decide
+
+/-- regression instances of the repaired defects: growth past DIM and destruction (two blocks used to be dropped), copy
+    of a heap-mode object, assignment of a static over a heap-mode object, `x.push_back(x[i])` at size DIM in static
+    mode and in heap mode with exhausted capacity -/
+example :
+    (let w := run (smallImpl 4 (0 : Int)) World.empty [.ctor 0, .push 0 1, .push 0 2, .push 0 3, .push 0 4, .push 0 5, .destroy 0]
+     w.led.allocs = 5 ∧ w.led.freed.length = 5 ∧ w.led.lost = [] ∧ w.led.events = []) ∧
+    (let w := run (smallImpl 4 (0 : Int)) World.empty [.ctorN 0 6, .copy 1 0, .ctor 2, .assign 0 2, .destroy 0, .destroy 1, .destroy 2]
+     w.led.allocs = w.led.freed.length ∧ w.led.lost = [] ∧ w.led.events = []) ∧
+    smviewOf (run (smallImpl 4 (0 : Int)) World.empty [.ctorV 0 [10, 11, 12, 13], .pushAt 0 2]) 0
+      = some [some 10, some 11, some 12, some 13, some 12] ∧
+    smviewOf (run (smallImpl 4 (0 : Int)) World.empty [.ctorN 0 4, .write 0 0 7, .pushAt 0 0]) 0
+      = some [some 7, some 0, some 0, some 0, some 7] := by decide
+
 /-- exact allocator cost of the static → heap switch `resize(n)`, `n > DIM` (also taken by the `push_back` at size DIM):
-    not one allocation but five (four when `n ≤ 4`) — the temporary `small_vector(n)` allocates three blocks and frees
-    two, a default-constructed vector (one block) is placed over the static buffer and reallocated by the assignment
-    from the temporary when `n > 4` — and the block of the temporary (`allocs + 2`) is dropped without a free -/
+    five allocations (three when `n ≤ 4`) — the temporary `small_vector(n)` (a default vector, its copy inside the
+    union, the reallocation by `resize(n)` when `n > 4`), the copy construction of the vector inside `*this` (a block of
+    4, reallocated when `n > 4`) — of which all but the final block are freed; nothing is dropped -/
 theorem smallVector_switch_cost (c : Nat) (zero : α) (x : Small α) (n : Nat) (L : Ledger) (ht : x.tagS = true) (hn : c < n) :
     (Small.resize c zero x n L).2.fp =
-      (if 4 < n then (L.allocs + 5, (L.allocs + 3) :: (L.allocs + 1) :: L.allocs :: L.freed, (L.allocs + 2) :: L.lost)
-       else (L.allocs + 4, (L.allocs + 1) :: L.allocs :: L.freed, (L.allocs + 2) :: L.lost)) ∧
-    (Small.resize c zero x n L).1.dy.blk = some (if 4 < n then L.allocs + 4 else L.allocs + 3) :=
+      (if 4 < n then (L.allocs + 5, (L.allocs + 2) :: (L.allocs + 3) :: (L.allocs + 1) :: L.allocs :: L.freed, L.lost)
+       else (L.allocs + 3, (L.allocs + 1) :: L.allocs :: L.freed, L.lost)) ∧
+    (Small.resize c zero x n L).1.dy.blk = some (if 4 < n then L.allocs + 4 else L.allocs + 2) :=
   Small.resize_switch_cost c zero x n L ht hn
 
-example : (Small.resize 4 (0 : Int) (Small.mkDefault 4 0 {}).1 6 {}).2.fp = (5, [3, 1, 0], [2]) := by decide
-
-/-- `x.push_back(x[i])` on a small_vector holding exactly DIM elements: the internal `resize(DIM+1)` runs before the
-    argument is read — static mode: a vector is constructed over the bytes of the static buffer; heap mode with
-    exhausted capacity: the block is reallocated and freed — so the element stored is read through a dangling
-    reference (`std::vector` appends a copy of `x[i]`) -/
-theorem smallVector_alias_push_counterexample :
-    let hS : List (Op Int) := [.ctorV 0 [10, 11, 12, 13], .pushAt 0 2]
-    let hD : List (Op Int) := [.ctorN 0 4, .write 0 0 7, .pushAt 0 0]
-    smviewOf (run (smallImpl 4 (0 : Int)) World.empty hS) 0 = some [some 10, some 11, some 12, some 13, none] ∧
-    specOf (run (stdSpec (0 : Int)) World.empty hS) 0 = some [some 10, some 11, some 12, some 13, some 12] ∧
-    (run (smallImpl 4 (0 : Int)) World.empty hS).led.events.contains .uaf = true ∧
-    smviewOf (run (smallImpl 4 (0 : Int)) World.empty hD) 0 = some [some 7, some 0, some 0, some 0, none] ∧
-    specOf (run (stdSpec (0 : Int)) World.empty hD) 0 = some [some 7, some 0, some 0, some 0, some 7] ∧
-    (run (smallImpl 4 (0 : Int)) World.empty hD).led.events.contains .uaf = true := by decide
-
-/-- … while a heap vector with spare capacity is not reallocated and the push is correct -/
-example : smviewOf (run (smallImpl 4 (0 : Int)) World.empty [.ctorN 0 6, .resize 0 4, .write 0 1 9, .pushAt 0 1]) 0
-    = some [some 0, some 9, some 0, some 0, some 9] := by decide
-
-/-- growing past DIM and destroying: two blocks are never freed (the temporary of the static→dynamic switch and the
-    heap vector itself — `~either() {}`), and the heap vector was *assigned* into storage where none was constructed -/
-theorem smallVector_leak_counterexample :
-    let w := run (smallImpl 4 (0 : Int)) World.empty
-      [.ctor 0, .push 0 1, .push 0 2, .push 0 3, .push 0 4, .push 0 5, .destroy 0]
-    w.led.allocs = 5 ∧ w.led.freed.length = 3 ∧ w.led.lost.length = 2 ∧ w.led.events = [.uninitAssign] := by decide
+example : (Small.resize 4 (0 : Int) (Small.mkDefault 4 0 {}).1 6 {}).2.fp = (5, [2, 3, 1, 0], []) := by decide
 
 /-! ### utl::maybe, utl::either -/
 
@@ -373,34 +377,50 @@ theorem either_nontrivial_lifetime_ok (cfg : ECfg α β) (h : List (EOp α β)) 
 example : ∀ op ∈ ([.mk 0, .mkR 1 (), .assign 0 1, .copy 2 0, .setR 2 (), .destroy 0] : List (EOp Int Unit)),
     neverLeft (maybeCfg true 0) op := by simp [neverLeft, maybeCfg]
 
-/-- the contained object's destructor is never run, whatever the history (so every constructed one leaks) -/
-theorem either_never_destroys (cfg : ECfg α β) (h : List (EOp α β)) : (erun cfg EWorld.empty h).led.dtors = 0 := by
-  have : ∀ (w : EWorld α β), (erun cfg w h).led.dtors = w.led.dtors := by
-    induction h with
-    | nil => intro w; rfl
-    | cons op h ih => intro w; simp only [erun]; rw [ih, (estep_dtors cfg w op).1]
-  rw [this]; rfl
+/-- lifetimes of a non-trivial left type are managed as `std::optional` / `std::variant` manage them — EVERY history:
+    no lifetime error is ever recorded (no assignment into unconstructed storage, no construction over a live object,
+    no destruction of a dead one), in every reachable state a left object is alive exactly in the objects whose active
+    alternative is LEFT, and after destroying all objects every constructed left object has been destroyed -/
+theorem either_lifetime_ok (cfg : ECfg α β) (hnt : cfg.nt = true) (h : List (EOp α β)) :
+    (erun cfg EWorld.empty h).led.events = [] ∧
+    (∀ k x, (erun cfg EWorld.empty h).objs k = some x → x.left.live = x.tagL) ∧
+    ((∀ k, (erun cfg EWorld.empty h).objs k = none) → (erun cfg EWorld.empty h).led.ctors = (erun cfg EWorld.empty h).led.dtors) := by
+  have hN : ∀ op ∈ h, op.target < (h.map EOp.target).foldr max 0 + 1 := by
+    intro op hop
+    have : ∀ (l : List Nat) (a : Nat), a ∈ l → a ≤ l.foldr max 0 := by
+      intro l a ha
+      induction l with
+      | nil => cases ha
+      | cons b l ih =>
+        simp only [List.foldr_cons]
+        rcases List.mem_cons.mp ha with e | e
+        · subst e; exact Nat.le_max_left _ _
+        · exact Nat.le_trans (ih e) (Nat.le_max_right _ _)
+    have := this (h.map EOp.target) op.target (List.mem_map_of_mem hop)
+    omega
+  have hl := erun_life cfg hnt h (elife_empty _) hN
+  refine ⟨hl.2.1, hl.1, ?_⟩
+  intro hdead
+  have h0 : ((List.range ((h.map EOp.target).foldr max 0 + 1)).map
+      (fun k => ownO Eith.leftCnt ((erun cfg EWorld.empty h).objs k))).sum = 0 := by
+    rw [sum_range_congr (fun _ => 0) _ _ (by intro k _; rw [hdead k]; rfl)]
+    exact sum_range_zero _
+  have := hl.2.2
+  rw [h0] at this
+  omega
 
-/-- `maybe<non-trivial>`: a stored value is never destroyed -/
-theorem maybe_nontrivial_leak_counterexample :
-    let L := (erun (maybeCfg true (0 : Int)) EWorld.empty [.mkL 0 5, .destroy 0]).led
-    L.ctors = 1 ∧ L.dtors = 0 := by decide
-
-/-- `maybe<non-trivial>`: `m = nothing` over a value does not destroy it either -/
-theorem maybe_nontrivial_reset_counterexample :
-    let w := erun (maybeCfg true (0 : Int)) EWorld.empty [.mkL 0 5, .setR 0 ()]
-    (w.objs 0).map Eith.get = some (some (.inr ())) ∧ (w.objs 0).map (·.left.live) = some true ∧ w.led.dtors = 0 := by decide
-
-/-- `maybe<non-trivial>`: assigning a value to a Nothing runs `T::operator=` on unconstructed storage -/
-theorem maybe_nontrivial_assign_counterexample :
-    (erun (maybeCfg true (0 : Int)) EWorld.empty [.mk 0, .setL 0 5]).led.events = [.uninitAssign] ∧
-    (erun (maybeCfg true (0 : Int)) EWorld.empty [.mk 0, .mkL 1 5, .assign 0 1]).led.events = [.uninitAssign] := by decide
-
-/-- `either<non-trivial,…>`: copy construction assigns into unconstructed storage; assignment of a LEFT source to a
-    RIGHT-tagged object placement-news over the still-alive left object; nothing is ever destroyed -/
-theorem either_nontrivial_counterexample :
-    (erun (eitherCfg true (0 : Int) (0 : Int)) EWorld.empty [.mkL 0 5, .copy 1 0]).led.events = [.uninitAssign] ∧
-    (erun (eitherCfg true (0 : Int) (0 : Int)) EWorld.empty [.mkL 0 5, .setR 0 3, .mkL 1 7, .assign 0 1]).led.events = [.overLive] ∧
-    (erun (eitherCfg true (0 : Int) (0 : Int)) EWorld.empty [.mkL 0 5, .destroy 0]).led.ctors = 1 := by decide
+/-- regression instances of the repaired defects (each used to be a counterexample): a stored value is destroyed with
+    its maybe; `m = nothing` destroys it; `m = v` / `m = other` on a Nothing constructs; either's copy constructs,
+    switching alternatives destroys the old one -/
+example :
+    (let L := (erun (maybeCfg true (0 : Int)) EWorld.empty [.mkL 0 5, .destroy 0]).led
+     L.ctors = 1 ∧ L.dtors = 1 ∧ L.events = []) ∧
+    (let w := erun (maybeCfg true (0 : Int)) EWorld.empty [.mkL 0 5, .setR 0 ()]
+     (w.objs 0).map Eith.get = some (some (.inr ())) ∧ (w.objs 0).map (·.left.live) = some false ∧ w.led.dtors = 1) ∧
+    (erun (maybeCfg true (0 : Int)) EWorld.empty [.mk 0, .setL 0 5]).led.events = [] ∧
+    (erun (maybeCfg true (0 : Int)) EWorld.empty [.mk 0, .mkL 1 5, .assign 0 1]).led.events = [] ∧
+    (erun (eitherCfg true (0 : Int) (0 : Int)) EWorld.empty [.mkL 0 5, .copy 1 0]).led.events = [] ∧
+    (let L := (erun (eitherCfg true (0 : Int) (0 : Int)) EWorld.empty [.mkL 0 5, .setR 0 3, .mkL 1 7, .assign 0 1, .destroy 0, .destroy 1]).led
+     L.events = [] ∧ L.ctors = 3 ∧ L.dtors = 3) := by decide
 
 end NmVerif.Props.C19
